@@ -32,7 +32,7 @@
 #define POST_IAX_EQ_SOUND(p, n, RV) ((RV).has ==> (IAX_IN((RV).val, n) && IAX_EQ((RV).val, p)))
 #define POST_IAX_EQ_FOUND(p, n, RV, k) ((IAX_IN(k, n) && IAX_EQ(k, p)) ==> ((RV).has && (RV).val == (k)))
 
-#define IAX_CONTRACT(p, n, m) \
+#define IAX_CONTRACT(p, n, m, fn) \
 __CPROVER_requires(MATCH_VALID(m)) \
 __CPROVER_requires(nix_exc == EXC_NONE) \
 __CPROVER_requires(IAX_DOM(p)) \
@@ -48,7 +48,7 @@ __CPROVER_ensures(/*Equal-sound*/ (m) == PositionMatch_Equal ==> POST_IAX_EQ_SOU
 __CPROVER_ensures(/*Equal-found*/ (m) == PositionMatch_Equal ==> POST_IAX_EQ_FOUND(p, n, __CPROVER_return_value, (ndsize_t)ghost_k)) \
 __CPROVER_ensures(/*no-exception*/ nix_exc == EXC_NONE) \
 IAX_COVERS(m) \
-__CPROVER_assigns()
+NIX_CANARY(fn) __CPROVER_assigns()
 
 /* vacuity guard: clauses labelled COVER-* must FAIL (= the situation is reachable under the requires) */
 #if defined(NIX_ENFORCE_getDataFrameIndex) || defined(NIX_ENFORCE_getSetIndex)
@@ -64,11 +64,11 @@ COVER_HAS(m, PositionMatch_Equal, __CPROVER_return_value)
 #endif
 
 opt_ndsize getDataFrameIndex(const double position, const ndsize_t tick_count, const PositionMatch match)
-IAX_CONTRACT(position, tick_count, match)
+IAX_CONTRACT(position, tick_count, match, getDataFrameIndex)
 ;
 
 opt_ndsize getSetIndex(const double position, vec_string labels, const PositionMatch match)
-IAX_CONTRACT(position, (ndsize_t)labels.n, match)
+IAX_CONTRACT(position, (ndsize_t)labels.n, match, getSetIndex)
 ;
 
 
@@ -114,7 +114,7 @@ __CPROVER_ensures(/*COVER-asc-k-below*/ !(RAX_F(position) && ghost_k < ticks->n 
 __CPROVER_ensures(/*COVER-asc-k-above*/ !(RAX_F(position) && ghost_k < ticks->n && __CPROVER_return_value.has && ghost_k > __CPROVER_return_value.val))
 __CPROVER_ensures(/*COVER-unsorted*/ !(!ghost_ticks_ascending && ticks->n > 2 && ticks->data[0] > ticks->data[1]))
 #endif
-__CPROVER_assigns()
+NIX_CANARY(getIndex) __CPROVER_assigns()
 ;
 
 /* ---- sampled axis: x_i = (double)i * interval + offset  (= SampledDimension::positionAt) ----
@@ -171,7 +171,7 @@ __CPROVER_ensures(/*COVER-has*/ !(SRV.has && SRV.val >= 1))
 __CPROVER_ensures(/*COVER-before-first*/ !(position < (S_OFF)))
 #endif
 #endif
-__CPROVER_assigns()
+NIX_CANARY(getSampledIndex) __CPROVER_assigns()
 ;
 
 #endif
